@@ -279,8 +279,14 @@ def valid_meta(h, t, prefix=''):
         elif kind == 'text':
             s = h.str(name)
             if h.sym:
-                from pyvc.models import codec_functions
-                h.assume(codec_functions()[2](z3.StringVal(CHARSET), V(s)))
+                # instance of the ASSUMED codec contract for this text: encodable; its encoding consists of bytes and
+                # decodes back to the text
+                from pyvc.models import codec_functions, Decodable
+                Enc, Dec, Encodable = codec_functions()[:3]
+                cs = z3.StringVal(CHARSET)
+                e = Enc(cs, V(s))
+                h.assume([Encodable(cs, V(s)), Dec(cs, e) == V(s), Decodable(cs, e)])
+                h.assume(All(0, z3.Length(e), lambda k, e=e: z3.And(e[k] >= 0, e[k] <= 255)))
             attrs[nm] = s
         elif kind == 'rate':
             attrs[nm] = RATE_VALUES[cfg.get('rate', 0)]
